@@ -350,6 +350,8 @@ pub fn run(id: &str, tier: Tier) -> i32 {
     };
     let exe = std::env::current_exe().expect("current exe");
     let work = prepare_work(id);
+    // witnesses of earlier runs of this check are stale
+    let _ = std::fs::remove_dir_all(crate::verif_root().join("replay").join(id));
     let ctx = crate::make_ctx(tier, seed, work.clone());
     let n_cases = prop.cases(&ctx);
     let nshards = prop.workers().min(std::thread::available_parallelism().map(|n| n.get()).unwrap_or(8)).max(1);
